@@ -17,7 +17,9 @@
 //!           bg = `Background::from_counts` of the symbol counts outside the windows of the sequences that
 //!           were active before the call, the hold-out excluded (recomputed here from the data set),
 //!   record = `I;<state>`               after construction
-//!          | `S;z;step;itn;itcounts;<state>`  after every `next()` that returned `Some`
+//!          | `S;z;step;itn;itcounts;<state>[;r=..][;p=..][;w=..][;e=..][;q=..;f=..]`  after every `next()`
+//!            that returned `Some`; the optional fields (floating-point details, first `fl` calls) are
+//!            described where they are printed
 //!          | `E`                       `next()` returned `None` (converged)
 //!          | `P`                       construction or `next()` panicked (ends the trace)
 //!   state = `n;cm;bg;active;astarts;starts` with
@@ -38,7 +40,9 @@ use lightmotif::seq::{EncodedSequence, StripedSequence, SymbolCount};
 use generic_array::GenericArray;
 use lmh::*;
 use rand::rngs::StdRng;
-use rand::SeedableRng;
+use rand::{RngCore, SeedableRng};
+use std::cell::RefCell;
+use std::rc::Rc;
 use std::collections::HashMap;
 use typenum::Unsigned;
 
@@ -76,6 +80,50 @@ fn opt(f: &HashMap<String, String>, k: &str) -> Option<usize> {
     }
 }
 
+
+/// StdRng that records every word it hands out (the sampler is generic in its generator): the last
+/// u64 of a call of next() is the one `WeightedIndex::sample` turned into the chosen weight.
+struct LogRng {
+    inner: StdRng,
+    log: Rc<RefCell<Vec<(u8, u64)>>>,
+}
+
+impl RngCore for LogRng {
+    fn next_u32(&mut self) -> u32 {
+        let v = self.inner.next_u32();
+        self.log.borrow_mut().push((32, v as u64));
+        v
+    }
+    fn next_u64(&mut self) -> u64 {
+        let v = self.inner.next_u64();
+        self.log.borrow_mut().push((64, v));
+        v
+    }
+    fn fill_bytes(&mut self, dest: &mut [u8]) {
+        self.inner.fill_bytes(dest);
+        self.log.borrow_mut().push((8, dest.len() as u64));
+    }
+    fn try_fill_bytes(&mut self, dest: &mut [u8]) -> Result<(), rand::Error> {
+        self.fill_bytes(dest);
+        Ok(())
+    }
+}
+
+fn bits32(m: &DenseMatrix<f32, impl generic_array::ArrayLength>) -> String {
+    (0..m.rows())
+        .flat_map(|r| (0..m.columns()).map(move |k| (r, k)))
+        .map(|(r, k)| m[r][k].to_bits().to_string())
+        .collect::<Vec<_>>()
+        .join(",")
+}
+
+fn pow2_bits32(m: &DenseMatrix<f32, impl generic_array::ArrayLength>) -> String {
+    (0..m.rows())
+        .flat_map(|r| (0..m.columns()).map(move |k| (r, k)))
+        .map(|(r, k)| 2f32.powf(m[r][k]).to_bits().to_string())
+        .collect::<Vec<_>>()
+        .join(",")
+}
 
 // ---------------------------------------------------------------- data sets
 //
@@ -252,7 +300,10 @@ macro_rules! impl_run {
                 )
             }
 
-            let rng = StdRng::seed_from_u64(seed);
+            let rlog: Rc<RefCell<Vec<(u8, u64)>>> = Rc::new(RefCell::new(vec![]));
+            let rng = LogRng { inner: StdRng::seed_from_u64(seed), log: rlog.clone() };
+            // number of calls of next() reported with the floating-point details
+            let fl: usize = f.get("fl").map(|s| s.parse().unwrap()).unwrap_or(40);
             let built = no_panic(|| {
                 if f["api"] == "new" {
                     Sampler::new(&data, width, rng)
@@ -291,6 +342,7 @@ macro_rules! impl_run {
             for _ in 0..steps {
                 let before_active = s.active_sequences();
                 let before_starts = s.verif_starts().to_vec();
+                rlog.borrow_mut().clear();
                 match no_panic(|| s.next()) {
                     None => {
                         trace.push("P".to_string());
@@ -346,13 +398,65 @@ macro_rules! impl_run {
                                 None => pssm_ok = format!("bad{}:P", it.step),
                             }
                         }
+                        // r= : the words the generator handed out during the call (count:last u64)
+                        let words = rlog.borrow();
+                        let last64 = words.iter().rev().find(|w| w.0 == 64).map(|w| w.1.to_string());
+                        let mut extra = format!(";r={}:{}", words.len(), last64.unwrap_or_else(|| "-".to_string()));
+                        drop(words);
+                        if it.step < fl && it.z < copies.len() {
+                            let z = it.z;
+                            // p= : cells of Iteration.pssm (the logarithm oracle of the model's PSSM)
+                            extra.push_str(&format!(";p={}", bits32(it.pssm.matrix())));
+                            // w= : 2f64.powf(x as f64 / 1.0) of the scores of the hold-out (the exp2 oracle)
+                            if let Some(w) = no_panic(|| {
+                                it.pssm
+                                    .score(&copies[z])
+                                    .iter()
+                                    .map(|&x| 2f64.powf(x as f64 / 1.0).to_bits().to_string())
+                                    .collect::<Vec<_>>()
+                                    .join(",")
+                            }) {
+                                extra.push_str(&format!(";w={}", w));
+                            }
+                            // Zoops trial of an inactive sequence: e= 2f32.powf of the cells of the old PSSM;
+                            // q= / f= cells and 2f32.powf of the PSSM with z included at its new start
+                            // (rebuilt here from the data set: the sampler does not keep it)
+                            let trial = f["mode"] == "zoops" && f["api"] != "new" && !before_active.contains(&z);
+                            if trial {
+                                let after_starts = s.verif_starts().to_vec();
+                                let built = no_panic(|| {
+                                    let mut bgc = GenericArray::<usize, <A as Alphabet>::K>::default();
+                                    let mut cm = DenseMatrix::<u32, <A as Alphabet>::K>::new(width);
+                                    let members: Vec<usize> =
+                                        before_active.iter().cloned().filter(|&i| i != z).chain(std::iter::once(z)).collect();
+                                    for &i in members.iter() {
+                                        let c = SymbolCount::<A>::count_symbols(&copies[i]);
+                                        for k in 0..c.len() {
+                                            bgc[k] += c[k];
+                                        }
+                                        for (j, p) in (after_starts[i]..after_starts[i] + width).enumerate() {
+                                            let x = copies[i][p].as_index();
+                                            bgc[x] -= 1;
+                                            cm[j][x] += 1;
+                                        }
+                                    }
+                                    let bg = Background::<A>::from_counts(&bgc).unwrap();
+                                    CountMatrix::<A>::new(cm).unwrap().to_freq(0.1).into_scoring(bg)
+                                });
+                                extra.push_str(&format!(";e={}", pow2_bits32(it.pssm.matrix())));
+                                if let Some(np) = built {
+                                    extra.push_str(&format!(";q={};f={}", bits32(np.matrix()), pow2_bits32(np.matrix())));
+                                }
+                            }
+                        }
                         trace.push(format!(
-                            "S;{};{};{};{};{}",
+                            "S;{};{};{};{};{}{}",
                             it.z,
                             it.step,
                             it.counts.sequence_count(),
                             show_cm(&it.counts),
-                            state(&s)
+                            state(&s),
+                            extra
                         ));
                     }
                 }
@@ -396,7 +500,7 @@ fn annotate(f: &HashMap<String, String>) -> String {
         let p: Vec<&str> = r.split(';').collect();
         let cur = match p[0] {
             "I" if p.len() == 7 => (p[4].to_string(), p[6].to_string()),
-            "S" if p.len() == 11 => (p[8].to_string(), p[10].to_string()),
+            "S" if p.len() >= 11 => (p[8].to_string(), p[10].to_string()),
             _ => continue,
         };
         if p[0] == "S" {
@@ -551,6 +655,12 @@ fn gen_case(rng: &mut Rng, id: usize, tier: &str) -> String {
     };
     // at least 300 calls of next() in every tier (hundreds of include / exclude updates)
     let steps = if tier == "thorough" { 300 + rng.below(301) } else { 300 + rng.below(101) };
+    // number of calls of next() replayed with the floating-point model (PSSM, scores, weights, draw, Zoops test)
+    let fl = if tier == "thorough" {
+        if rng.chance(1, 8) { steps as usize } else { 40 }
+    } else {
+        20
+    };
     let arm = match rng.below(10) {
         0 => "generic",
         1 => "sse2",
@@ -559,7 +669,7 @@ fn gen_case(rng: &mut Rng, id: usize, tier: &str) -> String {
     };
     let wrap = w + *rng.pick(&[0usize, 0, 1, 5]);
     format!(
-        "{} abc={} w={} mode={} api={} seeds={} inertia={} patience={} ord={} rng={} steps={} arm={} wrap={} src={} pads={} sseed={} seqs={}",
+        "{} abc={} w={} mode={} api={} seeds={} inertia={} patience={} ord={} rng={} steps={} arm={} wrap={} fl={} src={} pads={} sseed={} seqs={}",
         id,
         abc,
         w,
@@ -573,6 +683,7 @@ fn gen_case(rng: &mut Rng, id: usize, tier: &str) -> String {
         steps,
         arm,
         wrap,
+        fl,
         src,
         pads_field,
         sseed,
